@@ -751,7 +751,7 @@ def _guard_ok(fl, test, notify_nodes):
 def delta_rule(kind):
     prop = PROP_OF[kind]
 
-    @rule(f"{prop}.delta", [prop, "C19"],
+    @rule(f"{prop}.delta", [prop, "C19", "C08"],
           f"Trait{kind.capitalize()}: one notify per successful mutation, "
           f"after it, with pre-state `removed` and validated `added`")
     def _r(ctx, res, kind=kind):
@@ -1414,7 +1414,7 @@ def _resolve_alias(fn, name):
     return defs[0] if len(defs) == 1 else None
 
 
-@rule("C04.validator-binding", ["C04", "C14"],
+@rule("C04.validator-binding", ["C04", "C14", "C07", "C06", "C05"],
       "Trait*Object binds the inner trait's validate as the element validator "
       "and returns its result")
 def c04_validator_binding(ctx, res):
